@@ -35,7 +35,11 @@
 //!   RX <hex>                                         the bytes are written to the peer end of a real connection,
 //!                                                    conn.recv.get_next_message(Duration(50ms))
 //!   SB <kind> <bo> <content_bytes>                   push an array whose content has that many bytes; kind u8|u64|bool|pstr|dict|dicts|pdict
-//!   SD <kind> <depth>                                push_old_param of a Param tree nested <depth> containers deep; kind v|mix
+//!   SD <kind> <depth>                                push_old_param of a Param tree nested <depth> containers deep; kind v|mix;
+//!                                                    kind tv: push_param(&params::Variant) (the typed entry of the Param marshaller) around <depth>-1 Param variants
+//!   SC <entry> <bo> <elem> <nbytes>                  scaling: a VALID array of about <nbytes> bytes of content built here; elem ay|ab|at|as|a{tt}|av;
+//!                                                    entry vr|up|ut|bpget|bpparam|bpall|bpvalidate (as the ops above) | hd (the array as the value of an
+//!                                                    unknown header field); dcpu_us = CPU time of the decoding call
 //!   ST <kind> <depth>                                TYPED value of a self-referential type nested <depth> containers deep (kind drec|msrec|
 //!                                                    vec: Vec<DRec>): push_param, wire::marshal::marshal, send_message_write_all on a real
 //!                                                    connection, and the library's own body.validate() on what was pushed
@@ -44,7 +48,7 @@
 //!   LB <entry> <bo> <phase> <L> <present>            an array whose length field says L with <present> zero bytes of content
 //!                                                    actually there (built here: 64 MiB do not go through the line protocol);
 //!                                                    entry = vr:<sig> | up:<sig> | ut:<type>, sig/type one of ay at ab as a{yy}
-use rbverif::wirelib::{ArrN, BBytes, BPath, BSig, BStr, CowA, Fd, FdDyn, Path, Sig, SliceR, Var, F64};
+use rbverif::wirelib::{ArrN, BBytes, BPath, BSig, BStr, CowA, Fd, FdDyn, Path, Sig, SliceR, UVar, Var, F64};
 use rbverif::{hex, unhex};
 use rustbus::message_builder::{MarshalledMessage, MarshalledMessageBody};
 use rustbus::params::{Base, Container, Param};
@@ -110,17 +114,19 @@ static GLOBAL: Track = Track;
 
 struct Meter {
     base: usize,
+    cpu0: u64,
 }
 impl Meter {
     fn start() -> Meter {
         let base = CUR.load(Ordering::Relaxed);
         PEAK.store(base, Ordering::Relaxed);
         MAXREQ.store(0, Ordering::Relaxed);
-        Meter { base }
+        Meter { base, cpu0: thread_cpu_us() }
     }
+    /// peak heap above the level at start, largest single request, CPU time of this thread since start
     fn stop(&self) -> String {
         let peak = PEAK.load(Ordering::Relaxed).saturating_sub(self.base);
-        format!("peak={} maxreq={}", peak, MAXREQ.load(Ordering::Relaxed))
+        format!("peak={} maxreq={} dcpu_us={}", peak, MAXREQ.load(Ordering::Relaxed), thread_cpu_us() - self.cpu0)
     }
 }
 
@@ -277,6 +283,24 @@ where
     let second = p.get::<T>().is_ok();
     let left2 = p.sigs_left();
     format!("{} second={} next={} left={} left2={} {}", if first { "ok" } else { "err" }, second, next, left, left2, m.stop())
+}
+
+/// parser.get::<Cow<[E]>>(): a borrowed result must be aligned for E (see ut_cow)
+fn bp_get_cow<'body, 'fds, E>(body: &'body MarshalledMessageBody) -> String
+where
+    'body: 'fds,
+    E: Unmarshal<'body, 'fds> + Clone + 'body,
+{
+    let m = Meter::start();
+    let mut p = body.parser();
+    let r = p.get::<Cow<'body, [E]>>();
+    let res = match &r {
+        Ok(Cow::Borrowed(s)) if std::hint::black_box(s.as_ptr() as usize) % std::mem::align_of::<E>() != 0 => "ub what=misaligned_borrowed_slice".to_string(),
+        Ok(_) => "ok".to_string(),
+        Err(_) => "err".to_string(),
+    };
+    let left = p.sigs_left();
+    format!("{} left={} {}", res, left, m.stop())
 }
 
 struct UtV<'a> {
@@ -477,19 +501,45 @@ fn eval(line: &str) -> String {
             let sig = if toks[6] == "-" { String::new() } else { toks[6].to_string() };
             let bytes = unhex(toks[7]);
             let sigvalid = sig_is_valid(&sig);
-            // Vec<u8> allocations are at least 8-aligned (checked), so buf[phase..] starts at address = phase mod 8
-            let mut buf = Vec::with_capacity(phase + bytes.len() + 8);
-            buf.extend(std::iter::repeat(0xEEu8).take(phase));
-            buf.extend_from_slice(&bytes);
-            assert_eq!(buf.as_ptr() as usize % 8, 0);
-            let body = MarshalledMessageBody::from_parts(buf, phase, fds, sig.clone(), bo);
+            // from_parts drops the bytes in front of an offset that is not a multiple of 8 (fix c7375b2), so an offset no longer
+            // moves the body in memory. For phase != 0 the body's Vec<u8> itself starts at address = phase mod 8: it is built over
+            // a leaked, over-aligned allocation and never dropped (the allocator must not see that pointer again). `all` consumes the
+            // message and bodies with descriptors would leak them: those keep an ordinary buffer (phase 0).
+            let misplace = phase != 0 && mode != "all" && fds.is_empty() && !bytes.is_empty();
+            let buf: Vec<u8> = if misplace {
+                let backing: &'static mut [u64] = Box::leak(vec![0u64; bytes.len() / 8 + 3].into_boxed_slice());
+                let base = backing.as_mut_ptr() as *mut u8;
+                unsafe {
+                    std::ptr::copy_nonoverlapping(bytes.as_ptr(), base.add(phase), bytes.len());
+                    Vec::from_raw_parts(base.add(phase), bytes.len(), bytes.len())
+                }
+            } else {
+                bytes.clone()
+            };
+            let mut body_md = std::mem::ManuallyDrop::new(MarshalledMessageBody::from_parts(buf, 0, fds, sig.clone(), bo));
+            let res = {
+            let body: &MarshalledMessageBody = &body_md;
             let res = match mode {
                 "get" | "get2" | "get3" | "get4" | "get5" => {
                     let n = if mode == "get" { 1 } else { mode[3..].parse().unwrap() };
-                    if let Some(r) = extra_types!(ty, bp_get, &body, n) {
+                    let cow = if n == 1 {
+                        match ty {
+                            "Cow[u16]" => Some(bp_get_cow::<u16>(body)),
+                            "Cow[u32]" => Some(bp_get_cow::<u32>(body)),
+                            "Cow[u64]" => Some(bp_get_cow::<u64>(body)),
+                            "Cow[i64]" => Some(bp_get_cow::<i64>(body)),
+                            _ => None,
+                        }
+                    } else {
+                        None
+                    };
+                    if let Some(r) = cow {
+                        r
+                    } else
+                    if let Some(r) = extra_types!(ty, bp_get, body, n) {
                         r
                     } else {
-                        let mut v = BpV { body: &body, n };
+                        let mut v = BpV { body, n };
                         dispatch04(ty, &mut v).unwrap_or_else(|| "NOTYPE".into())
                     }
                 }
@@ -520,7 +570,8 @@ fn eval(line: &str) -> String {
                 }
                 "all" => {
                     let mut msg = MarshalledMessage::new();
-                    msg.body = body;
+                    // (not misplaced: an ordinary buffer that may be dropped)
+                    msg.body = MarshalledMessageBody::from_parts(bytes.clone(), 0, mkfds(num(5)), sig.clone(), bo);
                     let m = Meter::start();
                     let r = msg.unmarshall_all();
                     let s = match &r {
@@ -529,10 +580,15 @@ fn eval(line: &str) -> String {
                     };
                     let a = m.stop();
                     drop(r);
-                    return format!("{} sigvalid={} {}", s, sigvalid, a);
+                    format!("{} {}", s, a)
                 }
                 x => panic!("mode {}", x),
             };
+            res
+            };
+            if !misplace {
+                unsafe { std::mem::ManuallyDrop::drop(&mut body_md) };
+            }
             format!("{} sigvalid={}", res, sigvalid)
         }
         "HD" => {
@@ -733,7 +789,7 @@ fn eval(line: &str) -> String {
             let mut p = Param::Base(Base::Byte(7));
             // built inside out: level `depth` is the innermost container
             for lvl in (0..depth).rev() {
-                let k = if kind == "v" { 0 } else { lvl % 3 };
+                let k = if kind == "v" || kind == "tv" { 0 } else { lvl % 3 };
                 p = match k {
                     0 => Param::Container(Container::Variant(Box::new(rustbus::params::Variant { sig: p.sig(), value: p }))),
                     1 => Param::Container(Container::Struct(vec![p])),
@@ -741,7 +797,16 @@ fn eval(line: &str) -> String {
                 };
             }
             let mut body = MarshalledMessageBody::new();
-            let r = body.push_old_param(&p).is_ok();
+            let r = if kind == "tv" {
+                // p has depth levels already (all variants, as kind v); take the outermost apart again: it is pushed through
+                // impl Marshal for params::Variant
+                match &p {
+                    Param::Container(Container::Variant(var)) => body.push_param(&**var).is_ok(),
+                    _ => body.push_param(0u8).is_ok(),
+                }
+            } else {
+                body.push_old_param(&p).is_ok()
+            };
             let mut msg = MarshalledMessage::new();
             msg.body = body;
             let back = if r { msg.body.validate().is_ok() } else { false };
@@ -891,9 +956,108 @@ fn eval(line: &str) -> String {
                 }
             }
         }
+        "SC" => {
+            let entry = toks[1];
+            let bo = bo_of(toks[2]);
+            let elem = toks[3];
+            let nbytes = num(4);
+            let u32b = |v: u32| match bo {
+                ByteOrder::LittleEndian => v.to_le_bytes(),
+                ByteOrder::BigEndian => v.to_be_bytes(),
+            };
+            let (unit, align): (Vec<u8>, usize) = match elem {
+                "ay" => (vec![0], 1),
+                "ab" => (vec![0; 4], 4),
+                "at" => (vec![0; 8], 8),
+                "a{tt}" => (vec![0; 16], 8),
+                "av" => (vec![1, b'y', 0, 7], 1),
+                "as" => {
+                    let mut u = u32b(3).to_vec();
+                    u.extend_from_slice(b"abc\0");
+                    (u, 4)
+                }
+                x => panic!("elem {}", x),
+            };
+            let k = (nbytes / unit.len()).max(1);
+            let mut arr: Vec<u8> = Vec::with_capacity(k * unit.len() + 16);
+            arr.extend_from_slice(&u32b((k * unit.len()) as u32));
+            while arr.len() % align != 0 {
+                arr.push(0);
+            }
+            for _ in 0..k {
+                arr.extend_from_slice(&unit);
+            }
+            let total = arr.len();
+            let ty = if elem == "av" { "av[y]" } else { elem };
+            let h = hex(&arr);
+            let line = match entry {
+                "vr" => format!("VR {} 0 0 {} {}", toks[2], elem, h),
+                "up" => format!("UP {} 0 0 0 {} {}", toks[2], elem, h),
+                "ut" => format!("UT {} {} 0 0 0 {}", ty, toks[2], h),
+                "bpget" => format!("BP get {} {} 0 0 {} {}", ty, toks[2], elem, h),
+                "bpparam" => format!("BP param y {} 0 0 {} {}", toks[2], elem, h),
+                "bpall" => format!("BP all y {} 0 0 {} {}", toks[2], elem, h),
+                "bpvalidate" => format!("BP validate y {} 0 0 {} {}", toks[2], elem, h),
+                "hd" => {
+                    // fixed header, then the field array: path, member, and the unknown field 100 whose value is the array
+                    let mut fields: Vec<u8> = Vec::with_capacity(total + 64);
+                    fields.extend_from_slice(&[1, 1, b'o', 0]);
+                    fields.extend_from_slice(&u32b(2));
+                    fields.extend_from_slice(b"/p\0");
+                    while fields.len() % 8 != 0 {
+                        fields.push(0);
+                    }
+                    fields.extend_from_slice(&[3, 1, b's', 0]);
+                    fields.extend_from_slice(&u32b(1));
+                    fields.extend_from_slice(b"M\0");
+                    while fields.len() % 8 != 0 {
+                        fields.push(0);
+                    }
+                    fields.push(100);
+                    fields.push(elem.len() as u8);
+                    fields.extend_from_slice(elem.as_bytes());
+                    fields.push(0);
+                    // the array value is aligned to 4 relative to the message: the field array starts at 16
+                    while (16 + fields.len()) % 4 != 0 {
+                        fields.push(0);
+                    }
+                    // (for 8-aligned elements the padding after the length must match the message offset: rebuild the array here)
+                    let pos = 16 + fields.len();
+                    fields.extend_from_slice(&u32b((k * unit.len()) as u32));
+                    while (16 + fields.len()) % align != 0 {
+                        fields.push(0);
+                    }
+                    let _ = pos;
+                    for _ in 0..k {
+                        fields.extend_from_slice(&unit);
+                    }
+                    let mut msg: Vec<u8> = vec![if matches!(bo, ByteOrder::LittleEndian) { b'l' } else { b'B' }, 1, 0, 1];
+                    msg.extend_from_slice(&u32b(0));
+                    msg.extend_from_slice(&u32b(1));
+                    msg.extend_from_slice(&u32b(fields.len() as u32));
+                    msg.append(&mut fields);
+                    while msg.len() % 8 != 0 {
+                        msg.push(0);
+                    }
+                    format!("HD 0 {}", hex(&msg))
+                }
+                x => panic!("entry {}", x),
+            };
+            drop(h);
+            drop(arr);
+            let r = eval(&line);
+            format!("{} len={}", r, total)
+        }
         "NOP" => "ok".into(),
         x => format!("badop {}", x),
     }
+}
+
+/// CPU time of the calling thread in microseconds (wall time says little on a loaded machine)
+fn thread_cpu_us() -> u64 {
+    let mut ts = nix::libc::timespec { tv_sec: 0, tv_nsec: 0 };
+    unsafe { nix::libc::clock_gettime(nix::libc::CLOCK_THREAD_CPUTIME_ID, &mut ts) };
+    ts.tv_sec as u64 * 1_000_000 + ts.tv_nsec as u64 / 1000
 }
 
 // ---------------------------------------------------------------------------------------- worker
@@ -927,7 +1091,9 @@ fn worker() {
         let h = std::thread::Builder::new()
             .stack_size(stack)
             .spawn(move || {
+                let c0 = thread_cpu_us();
                 let r = std::panic::catch_unwind(std::panic::AssertUnwindSafe(|| eval(&rest)));
+                let cpu = thread_cpu_us() - c0;
                 let s = match r {
                     Ok(s) => s,
                     Err(e) => {
@@ -941,7 +1107,7 @@ fn worker() {
                         format!("panic msg={}", msg.replace([' ', '\n'], "_"))
                     }
                 };
-                let _ = tx.send(s);
+                let _ = tx.send(format!("{} cpu_us={}", s, cpu));
             })
             .unwrap();
         let res = rx.recv_timeout(dl);
